@@ -282,6 +282,64 @@ def kernel_comparators(tier, seed, params):
     return res
 
 
+def sensitive_percents():
+    """integer percents P for which float(P)/100*100 is not exactly P (any re-scaling of the stored threshold rounds there), plus boundaries"""
+    s_ = {p for p in range(0, 101) if (float(p) / 100) * 100 != p or int(float(p) / 100 * 100) != p}
+    return sorted(s_ | {0, 1, 50, 70, 99, 100})
+
+
+def kernel_percent_concrete(tier, seed, params):
+    """the percent comparator as the CLI really constructs it (constructor executed, not translated) for concrete thresholds;
+    cmp translated over symbolic key sets"""
+    import z3
+    from json_to_models.cli import Cli
+    from json_to_models.registry import ModelFieldsPercentMatch
+    from vflib import py2smt
+    from vflib.py2smt import SetBV, Translator, Untranslatable
+    K, W = params.get("K", 16), params.get("W", 8)
+    Ps = list(range(0, 101)) if params.get("all") else sensitive_percents()
+    res = {"obligations": 0, "discharged": 0, "queries": [], "counterexamples": [], "inconclusive": [], "errors": [],
+           "functions_encoded": ["ModelFieldsPercentMatch.__init__ (executed)", "ModelFieldsPercentMatch.cmp (translated)", "Cli.MODEL_CMP_MAPPING['percent']"],
+           "bounds": {"universe_keys": K, "percents": Ps}, "samples": [], "solver_time_s": 0.0}
+    a, b = z3.BitVec("a", K), z3.BitVec("b", K)
+    iv, uv = z3.BitVec("i", W), z3.BitVec("u", W)
+    pc_i, pc_u = py2smt.popcount(a & b, W), py2smt.popcount(a | b, W)
+    image = [z3.ULE(iv, uv), z3.ULE(uv, K), z3.UGE(uv, 1), z3.Implies(iv == 0, z3.UGE(uv, 2))]
+    keys = [f"k{j}" for j in range(K)]
+    for Pc in Ps:
+        res["obligations"] += 1
+        try:
+            inst = Cli.MODEL_CMP_MAPPING["percent"](str(Pc))
+            T = Translator(lenwidth=W)
+            impl = py2smt.to_bool(T.call_function(type(inst).cmp, [inst, SetBV(a), SetBV(b)]))
+        except Untranslatable as e:
+            res["inconclusive"].append(f"P={Pc}: translator refused cmp: {e}")
+            continue
+        except Exception as e:
+            res["inconclusive"].append(f"P={Pc}: constructor raised {type(e).__name__}: {e}")
+            continue
+        i16, u16 = z3.ZeroExt(16 - W, iv), z3.ZeroExt(16 - W, uv)
+        spec = z3.UGE(100 * i16, Pc * u16)
+        goal = z3.substitute(impl, (pc_i, iv), (pc_u, uv)) != spec
+        q = py2smt.solve(image + [goal], timeout_s=params.get("timeout", 60), name=f"percent_{Pc}")
+        res["solver_time_s"] += q["time_s"]
+        res["queries"].append({"name": f"impl!=spec:percent_{Pc}", "result": q["result"], "time_s": q["time_s"], "engine": q["engine"]})
+        if q["result"] == "unsat":
+            res["discharged"] += 1
+        elif q["result"] == "sat":
+            m = q["model"]
+            i_, u_ = m.eval(iv, model_completion=True).as_long(), m.eval(uv, model_completion=True).as_long()
+            av, bv = ((1 << u_) - 1, (1 << i_) - 1) if i_ >= 1 else ((1 << (u_ - 1)) - 1, 1 << (u_ - 1))
+            case = {"kind": "percent", "a": [keys[j] for j in range(K) if av >> j & 1], "b": [keys[j] for j in range(K) if bv >> j & 1], "P": Pc, "n": 0,
+                    "default": False}
+            res["counterexamples"].append({"replay": "vflib.props.c05:replay_cmp", "case": case, "what": f"percent_{Pc}: implementation and specification differ",
+                                           "fingerprint": "cmp:percent"})
+        else:
+            res["inconclusive"].append(f"percent_{Pc}: {q['result']}")
+    res["samples"] = [{"obligation": "for each listed P: exists key sets . cmp(constructed by the CLI for percent_P) != (100*|a&b| >= P*|a|b|)  -> unsat", "percents": Ps}]
+    return res
+
+
 # ====================================================================================================== CH-E
 class UF:
     def __init__(self, n):
@@ -508,6 +566,57 @@ def scen_real(ch, params, out):
     graph_consistency(reg, out, lambda: f"policy {pol} keysets {keysets}")
 
 
+def scen_cli_roots(ch, params, out):
+    """three `-m` root models through the real CLI: the classes printed must be the connected components of the similarity
+    relation on the ORIGINAL key sets (comparing against already merged unions, or merging per root, changes the partition)"""
+    import ast
+    import json
+    from vflib import clienv
+    U = ["k0", "k1", "k2", "k3", "k4"][:params.get("keys", 4)]
+    subsets = [[k for j, k in enumerate(U) if m >> j & 1] for m in range(1, 2 ** len(U))]
+    pol, first = ch.choose("policy,root0_keys", [(p_, s_) for p_ in params.get("policies", ["number_2", "percent_50", "percent_70"]) for s_ in subsets], shard=True)
+    sets = [first]
+    for i in (1, 2):
+        sets.append(ch.choose(f"root{i}_keys", subsets))
+    order = ch.choose("argument_order", [[0, 1, 2], [2, 0, 1]])
+    fs = {}
+    argv = []
+    for i in order:
+        fs[f"/vfs/r{i}.json"] = json.dumps([{k: 1 for k in sets[i]}])
+        argv += ["-m", f"Root{i}", f"/vfs/r{i}.json"]
+    argv += ["--merge", pol]
+    res = clienv.run_main(argv, fs)
+    out.info = {"policy": pol, "sets": sets, "order": order}
+    ctx = lambda: f"policy {pol}, root key sets {sets}, argument order {order}"
+    if not out.check(res.status == 0, "cli_fails", lambda: f"{res.stderr[-300:]} ({ctx()})", "cli_fails"):
+        return
+
+    def similar(a, b):
+        name, *args = pol.split("_")
+        if name == "exact":
+            return spec_py("equals", a, b)
+        if name == "percent":
+            return spec_py("percent", a, b, P=int(args[0]))
+        return spec_py("number", a, b, n=int(args[0]))
+    uf = UF(3)
+    for x, y in itertools.combinations(range(3), 2):
+        if similar(sets[x], sets[y]):
+            uf.union(x, y)
+    comps = {}
+    for x in range(3):
+        comps.setdefault(uf.find(x), []).append(x)
+    expected = sorted(sorted(set().union(*[set(sets[x]) for x in c])) for c in comps.values())
+    try:
+        tree = ast.parse(res.stdout)
+    except SyntaxError as e:
+        out.fail("cli_output_not_python", str(e), "cli_output_not_python")
+        return
+    got = sorted(sorted(n.target.id for n in c.body if isinstance(n, ast.AnnAssign)) for c in tree.body if isinstance(c, ast.ClassDef))
+    out.check(got == expected, "merge_partition_wrong",
+              lambda: f"{ctx()}: the CLI printed classes with fields {got}; the similarity closure on the original key sets gives {expected}",
+              f"merge_partition_wrong:cli:{pol.split('_')[0]}")
+
+
 def parts(tier):
     if tier == "quick":
         return [
@@ -515,16 +624,19 @@ def parts(tier):
             SMT("cmp_percent", "vflib.props.c05:kernel_comparators", {"K": 16, "W": 8, "timeout": 150, "kinds": ["percent"]}, timeout=400),
             SMT("cmp_percent_default", "vflib.props.c05:kernel_comparators", {"K": 16, "W": 8, "timeout": 150, "kinds": ["percent_default", "any_default"]}, timeout=400),
             SMT("cmp_any", "vflib.props.c05:kernel_comparators", {"K": 16, "W": 8, "timeout": 150, "kinds": ["any", "any_only_percent"]}, timeout=600),
+            SMT("cmp_percent_as_constructed", "vflib.props.c05:kernel_percent_concrete", {"K": 16, "W": 8, "timeout": 60}, timeout=900),
             CH("table4", "vflib.props.c05:scen_table", {"models": 4}, shards=12, timeout=170, path_timeout=30),
             CH("table2x2rounds", "vflib.props.c05:scen_table", {"models": 2, "rounds": 2, "wraps": True}, shards=2, timeout=170, path_timeout=30),
             CH("real", "vflib.props.c05:scen_real", {"keys": 4, "policies": ["default", "percent_50", "number_2"]}, shards=3, timeout=170, path_timeout=30),
             CH("real3", "vflib.props.c05:scen_real", {"keys": 3}, shards=8, timeout=170, path_timeout=30),
+            CH("cli_three_roots", "vflib.props.c05:scen_cli_roots", {"keys": 4}, shards=16, timeout=170, path_timeout=30),
         ]
     return [
         SMT("cmp_equals_number", "vflib.props.c05:kernel_comparators", {"K": 64, "W": 8, "timeout": 600, "cross_check": True, "kinds": ["equals", "number", "number_default", "any_only_number", "any_only_equals"]}, timeout=3000),
         SMT("cmp_percent", "vflib.props.c05:kernel_comparators", {"K": 64, "W": 8, "timeout": 1500, "cross_check": True, "kinds": ["percent"]}, timeout=4000),
         SMT("cmp_percent_default", "vflib.props.c05:kernel_comparators", {"K": 64, "W": 8, "timeout": 1500, "cross_check": True, "kinds": ["percent_default", "any_default"]}, timeout=4000),
         SMT("cmp_any", "vflib.props.c05:kernel_comparators", {"K": 64, "W": 8, "timeout": 1500, "cross_check": True, "kinds": ["any", "any_only_percent"]}, timeout=6000),
+        SMT("cmp_percent_as_constructed", "vflib.props.c05:kernel_percent_concrete", {"K": 64, "W": 8, "timeout": 120, "all": True}, timeout=6000),
         CH("table5", "vflib.props.c05:scen_table", {"models": 5, "wraps": False}, shards=16, timeout=700, path_timeout=30),
         CH("table4wraps", "vflib.props.c05:scen_table", {"models": 4, "wraps": True}, shards=16, timeout=700, path_timeout=30),
         CH("table2x2rounds", "vflib.props.c05:scen_table", {"models": 2, "rounds": 2, "wraps": True}, shards=2, timeout=600, path_timeout=30),
